@@ -51,7 +51,13 @@ def ref_match(px, py, x, y):
     if not shape(py, y, by):
         return False, bx, by
     if any(len(v) > 1 for v in bx.values()) or any(len(v) > 1 for v in by.values()):
-        return None, bx, by        # variable repeated inside one pattern: statement is silent
+        # a variable repeated inside one pattern: every occurrence (either side) must be identical up to features;
+        # on how their features interact the statement is silent, so only the necessary condition is judged
+        for var in set(bx) | set(by):
+            occ = bx.get(var, []) + by.get(var, [])
+            if any(refcat.blind(o) != refcat.blind(occ[0]) for o in occ[1:]):
+                return False, bx, by
+        return None, bx, by
     for var in bx:
         if var in by:
             a, b = bx[var][0], by[var][0]
